@@ -429,6 +429,25 @@ func (fx *FnExec) siteAsserts(st *State, fr *frame, cc *ssa.CallCommon, args *ca
 func (fx *FnExec) call(st *State, fr *frame, cc *ssa.CallCommon, args *callArgs, site ssa.Instruction, mode string, k func(*State, []Term)) {
 	fx.ghostSets(st, fr, site)
 	fx.siteAsserts(st, fr, cc, args, site)
+	if b, ok := cc.Value.(*ssa.Builtin); ok {
+		// deferred (or spawned) builtin
+		switch b.Name() {
+		case "close":
+			c := args.terms[0]
+			name := fx.ord(fr.fn, site, mode+".close")
+			fx.emit(st, fr, "chan-open", name, "(and (not (= "+c+" 0)) (not "+st.ghostLoad("chanclosed", "Bool", c)+"))", nil, "")
+			st.ghostStore("chanclosed", "Bool", c, "true")
+		case "delete":
+			mt := cc.Args[0].Type().Underlying().(*types.Map)
+			fx.locksetMap(st, fr, cc.Args[0], site)
+			ks, vs := fx.mapKV(mt)
+			st.mapDelete(args.terms[0], ks, vs, args.terms[1])
+		default:
+			panic(unsupported(mode + " of builtin " + b.Name()))
+		}
+		k(st, nil)
+		return
+	}
 	// calling a method on a nil interface, or a nil function value, panics
 	if cc.IsInvoke() {
 		fx.emit(st, fr, "nonnil", fx.ord(fr.fn, site, "call."+cc.Method.Name())+"/iface", "(not (= (ityp "+args.fval+") 0))", nil, "")
